@@ -24,6 +24,8 @@ type Ctx struct {
 
 	floads map[*types.Var][]ssa.Value
 	tm     *textModel
+
+	linDepth int
 }
 
 func NewCtx(p *load.Prog, prop, config string) *Ctx {
